@@ -24,6 +24,8 @@ mod syntax;
 mod var;
 #[cfg(cormacrelf_incremental_rs_verif)]
 mod verif_audit;
+#[cfg(cormacrelf_incremental_rs_verif)]
+pub use verif_audit::verif_set_hash_seed;
 
 mod public;
 use boxes::SmallBox;
